@@ -128,7 +128,8 @@ def build(recipe: dict, flags_by_assignment: bool = False):
         rules = []
         for r in b["rules"]:
             rule = fl.Rule.create(rule_text(r))
-            rule.enabled = r.get("enabled", True)
+            if not flags_by_assignment:
+                rule.enabled = r.get("enabled", True)
             rules.append(rule)
         blocks.append(
             fl.RuleBlock(
@@ -146,8 +147,14 @@ def build(recipe: dict, flags_by_assignment: bool = False):
                                   ("default_value", "default")):
                     if hasattr(o, attr) and key in d:
                         setattr(o, attr, d[key])
-    return fl.Engine(name=recipe.get("name", "e"), description=recipe.get("description", ""), input_variables=inputs,
-                     output_variables=outputs, rule_blocks=blocks)
+    engine = fl.Engine(name=recipe.get("name", "e"), description=recipe.get("description", ""), input_variables=inputs,
+                       output_variables=outputs, rule_blocks=blocks)
+    if flags_by_assignment:
+        # rules are switched off AFTER the engine has loaded them (a run-time switch, not a load-time one)
+        for b, rb in zip(recipe["blocks"], engine.rule_blocks):
+            for r, rule in zip(b["rules"], rb.rules):
+                rule.enabled = r.get("enabled", True)
+    return engine
 
 
 # ---------------------------------------------------------------------------------------------------------------------
